@@ -356,6 +356,8 @@ for n, sh in [("u34_first_background_error_is_kept_and_stops_the_workers", "DbIn
     M_DB.harnesses.append(H(n, "U34", kind="bounded", shape=sh, bound="one column, empty transaction / <= 2 items per stage; stage functions by contract"))
 for n in ["u39_compressed_form_is_the_compressor_output", "u39_value_decompressed_exactly_when_the_entry_is_compressed"]:
     M_COLUMN.harnesses.append(H(n, "U39", kind="bounded", shape=n[4:].replace("_", " "), bound="values / compressor outputs of at most 4 bytes; 2-3 value tables; Compress::{compress,decompress} and ValueTable::query by contract"))
+M_COLUMN.harnesses.append(H("u40_write_plan_dispatch", "U40", kind="bounded", shape="HashColumn::write_plan for Set / Reference / Dereference / tree operation on an indexed or absent key",
+                            bound="search_all_indexes, write_plan_existing, write_plan_new by contract (U15)"))
 for n in ["u29_get_searches_current_then_every_queued_index", "u29_get_size_is_the_length_of_the_value"]:
     M_COLUMN.harnesses.append(H(n, "U29", kind="bounded", shape="HashColumn::%s with an 18-bit current index and two queued older indexes; get_in_index by contract" % ("get_size" if "size" in n else "get"),
                                 bound="two queued old indexes; HashColumn::get_in_index by contract (U13)"))
@@ -544,6 +546,7 @@ UNIT_META = {
                                    "IndexedChangeSet / BTreeChangeSet::{check, copy_to_overlay} carry the contracts proved by unit overlay_publish (check accepts exactly valid change sets; copy_to_overlay cannot fail on a valid one); the byte-counter preconditions of copy_to_overlay are assumed",
                                    "every column id named by the transaction indexes the overlay vector (precondition; commit_changes indexes options.columns with the same ids)",
                                    "statements of commit_raw before the first validation loop (queue-full wait, background-error gate: U34) are outside the fragment"]},
+    "U40": {"functions": ["column::HashColumn::write_plan"], "assumes": ["HashColumn::{search_all_indexes,write_plan_existing,write_plan_new} replaced by contracts (recorders; their own contracts are U15 / U15c)"]},
     "U39": {"functions": ["column::Column::{compress,get_value}"], "assumes": ["Compress::compress / decompress (lz4, snappy) replaced by contracts: compress returns a byte string of arbitrary length, decompress the original", "ValueTable::query replaced by its contract (U6-R)"]},
     "U38": {"functions": ["db::DbInner::{get_node,get_node_children}", "column::{unpack_node_data,unpack_node_children}"],
             "assumes": ["CommitOverlay::get_address (std HashMap lookup) and HashColumn::get_value replaced by contracts (scripted)", "one node shape: 2 data bytes, 1 child"]},
@@ -660,7 +663,7 @@ PROPS["C06"].update({
 })
 
 PROPS["C01"] = {
-    "kani_units": ["U30", "U29", "U15", "U8d"],
+    "kani_units": ["U30", "U29", "U40", "U15", "U8d"],
     "verus_units": ["overlay_publish", "lookup_chain"],
     "level": "other",
     "technique": "Kani/CBMC modular contracts on the real read path (DbInner::get / get_size, HashColumn::get) and write dispatch, Verus contracts on commit-overlay publication and the collision-chain lookup; one contract per pipeline stage, composed on paper",
@@ -713,7 +716,7 @@ PROPS["C16"] = {
 }
 PROPS["C08"]["kani_units"] = ["U34"]
 
-PROPS["C07"]["kani_units"] = ["U8d", "U17", "U15", "U24"]
+PROPS["C07"]["kani_units"] = ["U8d", "U40", "U17", "U15", "U24"]
 PROPS["C17"] = {
     "kani_units": ["U35"],
     "verus_units": [],
@@ -731,3 +734,4 @@ PROPS["C04"]["claim"] = "Point reads: DbInner::get / get_size on a btree column 
 PROPS["C10"]["claim"] = PROPS["C10"]["claim"].replace("Writer side:", "Node reads (bounded: one node shape; overlay lookup and HashColumn::get_value by contract): DbInner::get_node / get_node_children return the node queued in the commit overlay at that address if there is one and otherwise the node the column holds, unpacked into exactly the stored data and child order, and report absent exactly when neither has it. Writer side:")
 PROPS["C04"]["claim"] = PROPS["C04"]["claim"].replace("number_separator / last_separator_index / need_rebalance are exact;", "number_separator / last_separator_index / need_rebalance are exact; position() returns, for every node content (keys of 1-2 arbitrary bytes, not assumed sorted) and every search key, the first separator that is not smaller than the key, reports a match exactly when that separator equals the key, and every separator before it is strictly smaller (complete for the node sizes 0..=8);")
 PROPS["C04"]["does_not_cover"] = ["BTreeIterState::{seek, next, exit} (walk over the node stack)", "whole-tree order and uniform depth over histories", "insert / split path (Node::change)", "keys longer than 2 bytes in position() (same comparison, slice cmp)"]
+PROPS["C07"]["claim"] = PROPS["C07"]["claim"].replace("Bounded, callees by contract: write_existing_value_plan", "Bounded, callees by contract: HashColumn::write_plan applies an operation to the entry of an indexed key where it was found, stores and indexes a Set of a new key, and ignores (writes nothing for) a Reference or Dereference of an absent key; write_existing_value_plan")
